@@ -72,6 +72,15 @@ def late_waiter(rng, deploy_ms):
             'schedule': None, 'extra': {'timeout_ms': 15000}}
 
 
+def late_waiter_gated(rng):
+    """the same order of events without relying on speed: `waiter` is held before its deployment until `work`'s goroutine
+    has ended (its completion, and the check that goes with it, are then behind the run loop)"""
+    it = late_waiter(rng, 0)
+    it['schedule'] = {'stalls': [{'point': 'plugin.deploy.beforeDeploy', 'step': 'waiter', 'nth': 1, 'ms': 4000,
+                                  'until_ev': 'SExit', 'until_step': 'work'}]}
+    return it
+
+
 def fallback_burst(rng, n):
     """the same, all steps finishing at the same instant: every completion arms its own detector chain and every chain
     reports the dead end - far more than the error buffer holds, after Execute stopped reading it"""
@@ -114,6 +123,7 @@ def extra(ctx):
             items.append(fallback(rng, n))
         for ms in ([150] if ctx.quick else [30, 80, 150, 400]):
             items.append(late_waiter(rng, ms))
+        items.append(late_waiter_gated(rng))
         for n in ([40] if ctx.quick else [21, 30, 40, 80]):
             items.append(fallback_burst(rng, n))
             items.append(evalfail_burst(rng, max(24, n * 3 // 4)))
